@@ -156,15 +156,22 @@ def isWitnessScriptPubKey (s : Bytes) : Res Bool :=
 
 /-! ### `SignatureHash` -/
 
-/-- `SignatureHash(script, txTo, inIdx, hashtype)` with `sigversion = SIGVERSION_BASE` -/
+/-- `SignatureHash(script, txTo, inIdx, hashtype)` with `sigversion = SIGVERSION_BASE`, written for the
+    property-conforming behaviour: the consensus digest, or ValueError when the raw form reports an
+    error.  The shipped code has an additional guard in front, see `signatureHashBaseAsCoded` (known
+    finding D17: an `assert` API precondition on subscripts that have the shape of a witness program). -/
 def signatureHashBase (script : Bytes) (txTo : Tx) (inIdx : Nat) (hashtype : Int) : Res Bytes := do
-  -- assert not script.is_witness_scriptpubkey()
-  let w ← isWitnessScriptPubKey script
-  if w then throw assertionError
   let (h, err) ← rawSignatureHash script txTo inIdx hashtype
   -- if err is not None: raise ValueError(err)
   if err then throw .valueerr
   pure h
+
+/-- The wrapper exactly as coded: `assert not script.is_witness_scriptpubkey()` first (AssertionError
+    for every subscript shaped like a witness program, whatever the other arguments), then as above. -/
+def signatureHashBaseAsCoded (script : Bytes) (txTo : Tx) (inIdx : Nat) (hashtype : Int) : Res Bytes := do
+  let w ← isWitnessScriptPubKey script
+  if w then throw assertionError
+  signatureHashBase script txTo inIdx hashtype
 
 def zero32 : Bytes := List.replicate 32 0
 
